@@ -32,7 +32,8 @@ EXPLANATION = ("body VC of AbstractPart.structure for every enzyme geometry and 
 
 
 def obligations(ctx):
-    return ctx.verify(FUNCTIONS) + literal(ctx) + lemmas(ctx)
+    from props._shared import typing_state_census
+    return list(ctx.verify(FUNCTIONS) + literal(ctx) + lemmas(ctx)) + [typing_state_census(ctx, 'C05')]
 
 
 def iupac_match(sig, text):
@@ -244,6 +245,24 @@ def bounded(ctx):
                     g2 = repr(ex)
                 if g2 != got:
                     viol.append(dict(name="characterize_variant", what="characterize gives %s on a rotated/lower-case spelling but %s on the record" % (g2, got), case=dict(record=t_)))
+        # a part type defined *after* the base class has already characterised records is a candidate like the others
+        late = type("KLate", (Base, core.Entry), dict(signature=("CCGA", "AGTC")))
+        for s in be.class_records(late, rng, count=2):
+            evals += 1
+            rec = CircularRecord(Seq(s), id="late")
+            accepting = [kc for kc in kinds + [late] if kc(rec).is_valid()]
+            try:
+                ent = Base.characterize(rec)
+                ok, got = (type(ent) in accepting and ent.is_valid()), type(ent).__name__
+            except RuntimeError:
+                ok, got = not accepting, "RuntimeError"
+            except Exception as ex:
+                ok, got = False, repr(ex)
+            distinct.add(("characterize-late", s[:12]))
+            if not ok:
+                viol.append(dict(name="characterize_late_subclass", what="after earlier characterize() calls on the base class, a record of a part type "
+                                 "defined since then gives %s; the accepting candidates are %r" % (got, [k_.__name__ for k_ in accepting]),
+                                 case=dict(record=s, history="Base.characterize(...) x%d, then class KLate(Base, Entry) defined" % len(recs))))
     samples.append(dict(classes=len(sig_classes), example=sig_classes[0].__name__, signature=list(sig_classes[0].signature)))
     uniq = {}
     for v_ in viol:
